@@ -31,6 +31,7 @@ fn parse_def(t: &[&str]) -> Option<(String, DictSrc)> {
             cates: vec![],
             surfaces: vec![],
             has_space: false,
+        space_chars: vec![],
         },
     ))
 }
